@@ -25,15 +25,21 @@ theorem nodupNames_complete : ∀ (l : List Name), l.Nodup → nodupNames l = tr
       decide_eq_false_iff_not]
     exact ⟨h'.1, nodupNames_complete r h'.2⟩
 
+/-- every vertex of the graph is a file of the file map that passed the decoder's
+duplicate-key check -/
+def Graph.FromFiles (fm : FileMap) (g : Graph) : Prop :=
+  ∀ p ∈ g.verts, p.2.wellKeyed = true ∧ Store.get p.1 fm = some p.2
+
 /-- every file of the graph passed the decoder's duplicate-key check -/
 def Graph.WellKeyed (g : Graph) : Prop := ∀ p ∈ g.verts, p.2.wellKeyed = true
 
-theorem visitIncs_wellKeyed (fm : FileMap) (visit : Nat → Graph → Except Err Graph)
-    (hv : ∀ c g g', g.WellKeyed → visit c g = .ok g' → g'.WellKeyed)
+theorem visitIncs_inv (fm : FileMap) (visit : Nat → Graph → Except Err Graph)
+    (hv : ∀ c g g', g.FromFiles fm → visit c g = .ok g' → g'.FromFiles fm ∧ g.verts <+: g'.verts)
     (stack : List Nat) (parent : Nat) (ptf : Taskfile) (ds : List IncludeDecl) (g g' : Graph)
-    (hg : g.WellKeyed) (h : visitIncs fm visit stack parent ptf ds g = .ok g') : g'.WellKeyed := by
+    (hg : g.FromFiles fm) (h : visitIncs fm visit stack parent ptf ds g = .ok g') :
+    g'.FromFiles fm ∧ g.verts <+: g'.verts := by
   induction ds generalizing g with
-  | nil => simp only [visitIncs] at h; cases h; exact hg
+  | nil => simp only [visitIncs] at h; cases h; exact ⟨hg, List.prefix_refl _⟩
   | cons d r ih =>
     simp only [visitIncs] at h
     split at h
@@ -45,37 +51,51 @@ theorem visitIncs_wellKeyed (fm : FileMap) (visit : Nat → Graph → Except Err
       · split at h
         · cases h
         · rename_i g1 hsub
-          have hg1 : g1.WellKeyed := by
+          have hg1 : g1.FromFiles fm ∧ g.verts <+: g1.verts := by
             split at hsub
-            · cases hsub; exact hg
+            · cases hsub; exact ⟨hg, List.prefix_refl _⟩
             · exact hv _ _ _ hg hsub
-          exact ih { g1 with edges := addEdge parent d.file (resolveInclude ptf d) g1.edges } (fun p hp => hg1 p hp) h
+          obtain ⟨h1, h2⟩ := ih { g1 with edges := addEdge parent d.file (resolveInclude ptf d) g1.edges }
+            (fun p hp => hg1.1 p hp) h
+          exact ⟨h1, List.IsPrefix.trans hg1.2 h2⟩
 
-theorem visit_wellKeyed (fm : FileMap) (fuel : Nat) (stack : List Nat) (f : Nat) (g g' : Graph)
-    (hg : g.WellKeyed) (h : visit fm fuel stack f g = .ok g') : g'.WellKeyed := by
+theorem visit_inv (fm : FileMap) (fuel : Nat) (stack : List Nat) (f : Nat) (g g' : Graph)
+    (hg : g.FromFiles fm) (h : visit fm fuel stack f g = .ok g') :
+    (g'.FromFiles fm ∧ g.verts <+: g'.verts) ∧ ∃ tf, Store.get f fm = some tf ∧ g.verts ++ [(f, tf)] <+: g'.verts := by
   induction fuel generalizing stack f g g' with
   | zero => simp [visit] at h
   | succ n ih =>
     simp only [visit] at h
     split at h
     · cases h
-    · rename_i tf _
+    · rename_i tf hf
       split at h
       · cases h
       · rename_i hk
         split at h
         · cases h
-        · refine visitIncs_wellKeyed fm _ (fun c g1 g2 hg1 hc => ih _ _ _ _ hg1 hc) _ _ _ _ _ _ ?_ h
-          intro p hp
-          simp only [List.mem_append, List.mem_singleton] at hp
-          rcases hp with hp | rfl
-          · exact hg p hp
-          · simpa using hk
+        · have h0 : Graph.FromFiles fm { g with verts := g.verts ++ [(f, tf)] } := by
+            intro p hp
+            simp only [List.mem_append, List.mem_singleton] at hp
+            rcases hp with hp | rfl
+            · exact hg p hp
+            · exact ⟨by simpa using hk, hf⟩
+          obtain ⟨h1, h2⟩ := visitIncs_inv fm _ (fun c g1 g2 hg1 hc => (ih _ _ _ _ hg1 hc).1) _ _ _ _ _ _ h0 h
+          exact ⟨⟨h1, List.IsPrefix.trans (List.prefix_append _ _) h2⟩, tf, hf, h2⟩
 
-/-- **every file the reader accepted has pairwise distinct keys** -/
+/-- **every file the reader accepted has pairwise distinct keys** (and is a file of the map) -/
+theorem readGraph_fromFiles (fm : FileMap) (root : Nat) (g : Graph) (h : readGraph fm root = .ok g) :
+    g.FromFiles fm :=
+  (visit_inv fm _ [] root ⟨[], []⟩ g (fun _ hp => by cases hp) h).1.1
+
 theorem readGraph_wellKeyed (fm : FileMap) (root : Nat) (g : Graph) (h : readGraph fm root = .ok g) :
-    g.WellKeyed :=
-  visit_wellKeyed fm _ [] root ⟨[], []⟩ g (fun _ hp => by cases hp) h
+    g.WellKeyed := fun p hp => (readGraph_fromFiles fm root g h p hp).1
+
+/-- the root file is a vertex of the graph, and it is the root file of the map -/
+theorem readGraph_root (fm : FileMap) (root : Nat) (g : Graph) (h : readGraph fm root = .ok g) :
+    ∃ tf, Store.get root fm = some tf ∧ (root, tf) ∈ g.verts := by
+  obtain ⟨_, tf, hf, hp⟩ := visit_inv fm _ [] root ⟨[], []⟩ g (fun _ hp => by cases hp) h
+  exact ⟨tf, hf, hp.subset (by simp)⟩
 
 theorem Store.get_mem : ∀ (st : Store) (v : Nat) (tf : Taskfile), st.get v = some tf → (v, tf) ∈ st
   | [], _, _, h => by simp [Store.get] at h
@@ -97,6 +117,29 @@ theorem readGraph_allNodup (fm : FileMap) (root : Nat) (g : Graph) (h : readGrap
   have hm := Store.get_mem _ _ _ hv
   have hm' : (v, tf) ∈ g.verts := (sortBy_perm vertLe g.verts).mem_iff.mp hm
   exact wellKeyed_tasks_nodup tf (readGraph_wellKeyed fm root g h (v, tf) hm')
+
+theorem Store.get_of_mem : ∀ (st : Store) (v : Nat) (tf : Taskfile), (v, tf) ∈ st → ∃ tf', st.get v = some tf'
+  | [], _, _, h => by cases h
+  | (k, x) :: r, v, tf, h => by
+    simp only [Store.get]
+    split
+    · exact ⟨x, rfl⟩
+    · rcases List.mem_cons.mp h with h | h
+      · cases h; rename_i hk; exact absurd rfl hk
+      · exact Store.get_of_mem r v tf h
+
+/-- in the canonical form of the graph the reader returned, the root vertex holds the root
+file of the file map -/
+theorem readGraph_root_normalized (fm : FileMap) (root : Nat) (g : Graph) (h : readGraph fm root = .ok g) :
+    ∃ tf, Store.get root fm = some tf ∧ g.normalize.verts.get root = some tf := by
+  obtain ⟨tf, hf, hm⟩ := readGraph_root fm root g h
+  have hm' : (root, tf) ∈ g.normalize.verts := (sortBy_perm vertLe g.verts).mem_iff.mpr hm
+  obtain ⟨tf', hg⟩ := Store.get_of_mem _ _ _ hm'
+  have hm2 : (root, tf') ∈ g.verts := (sortBy_perm vertLe g.verts).mem_iff.mp (Store.get_mem _ _ _ hg)
+  have := (readGraph_fromFiles fm root g h _ hm2).2
+  simp only at this
+  rw [hf] at this; cases this
+  exact ⟨tf, hf, hg⟩
 
 /-- a file with a key used twice is refused with the decode error as soon as it is read,
 whatever else is wrong with it or with the files it includes -/
